@@ -12,20 +12,13 @@
 (*  C.Version(v, st)     golden run of a crash history                      *)
 (*  C.Recovered(acked, inflight, v, st, open, q)                            *)
 (***************************************************************************)
-EXTENDS Store, Search, Json, IOUtils
+EXTENDS Obs, Json, IOUtils
 
 Rec == ndJsonDeserialize(IOEnv.TRACE)
 
 VARIABLES l, vers, started, finished, lo, hi, seen
 tvars == <<l, vers, started, finished, lo, hi, seen>>
 
-JSet(s) == {s[k] : k \in DOMAIN s}
-JFun(s) == [x \in {s[k][1] : k \in DOMAIN s} |-> s[CHOOSE k \in DOMAIN s : s[k][1] = x][2]]
-JNode(n) == IF n.tag = "B" THEN Bucket(JSet(n.items)) ELSE Split([zero |-> n.zero, right |-> {n.pt}, ms |-> <<>>], n.l, n.r)
-JNodes(ns) == [x \in {ns[k].id : k \in DOMAIN ns} |-> JNode(ns[CHOOSE k \in DOMAIN ns : ns[k].id = x])]
-JMeta(m) == IF m.has THEN [metric |-> m.metric, dim |-> m.dim, items |-> JSet(m.items), roots |-> m.roots] ELSE NoMeta
-JIndex(st) == [metric |-> st.metric, dim |-> st.dim, store |-> JFun(st.store), updated |-> JSet(st.updated),
-               meta |-> JMeta(st.meta), version |-> st.version, nodes |-> JNodes(st.nodes)]
 MaxS(S) == IF S = {} THEN 0 ELSE CHOOSE x \in S : \A y \in S : y <= x
 NoSide(p, x) == "U"
 
@@ -87,7 +80,9 @@ Observe ==
            (IF seen[r] # -1 /\ seen[r] # e.v THEN {<<"C08", "snapshot_changed_under_the_reader">>} ELSE {}) \cup
            (IF e.v > 0 /\ e.v \in DOMAIN vers /\ ix # vers[e.v] THEN {<<"C08", "reader_sees_a_mixture_not_the_committed_version">>} ELSE {}) \cup
            (IF e.v = 0 /\ (Live(ix) # {} \/ ix.nodes # EmptyFn \/ ix.meta # NoMeta) THEN {<<"C08", "reader_sees_data_before_any_commit">>} ELSE {}) \cup
-           (IF e.v > 0 THEN CompleteDefects(e, ix, "C08") ELSE {})
+           (IF e.v > 0 THEN CompleteDefects(e, ix, "C08") ELSE {}) \cup
+           \* what the public API answers on this thread's snapshot (item set, vectors, iteration, reader accessors)
+           (IF e.v > 0 /\ "obs" \in DOMAIN e THEN {<<"C08", "reader_thread_" \o d[2]>> : d \in ObsDefects(e.obs, ix)} ELSE {})
      IN /\ Report(e, bad)
         /\ seen' = [seen EXCEPT ![r] = e.v]
   /\ l' = l + 1 /\ UNCHANGED <<vers, started, finished, lo, hi>>
